@@ -131,6 +131,18 @@ type C04Case struct {
 	OnRoot   bool    `json:"on_root,omitempty"`
 	Seed     int     `json:"order_seed,omitempty"`
 	Doc      string  `json:"doc,omitempty"`
+	// shared: Doc holds one declaration applied by a single rule to elements of font sizes Sizes
+	Sizes []string `json:"sizes,omitempty"`
+}
+
+// c04SharedDecls: declarations whose value is a composite holding a font-relative length (U is the unit)
+var c04SharedDecls = []string{
+	"background-image:linear-gradient(red 1U, blue 3U)", "background-image:radial-gradient(circle 2U at 1U 2U, red 1U, blue 3U)", "background-image:radial-gradient(2U 3U, red, blue 2U)",
+	"background-image:none, repeating-linear-gradient(to right, red, blue 2U)", "background-position:1U 2U", "background-position:right 1U bottom 2U, 3U 0", "background-size:1U 2U", "background-size:auto, 2U",
+	"border-spacing:1U 2U", "border-top-left-radius:1U 2U", "clip:rect(1U, 2U, 3U, 4U)", "transform:translate(1U, 2U)", "transform:rotate(10deg) translateX(2U)", "transform-origin:1U 2U", "object-position:1U 2U",
+	"margin-left:2U", "width:3U", "text-indent:2U", "letter-spacing:1U", "word-spacing:1U", "line-height:2U", "vertical-align:1U", "column-gap:2U", "row-gap:1U", "column-width:5U", "flex-basis:3U", "min-height:2U", "max-width:9U",
+	"outline-width:1U", "outline-offset:1U", "border-left-width:1U;border-left-style:solid", "top:1U", "grid-template-columns:1U 2U", "grid-auto-rows:2U", "grid-template-rows:minmax(1U, 3U) 2U", "tab-size:2U", "hyphenate-limit-zone:2U",
+	"bleed-left:1U", "marks:none;margin-top:1U", "padding-bottom:calc(1U)", "text-decoration-thickness:1U", "text-underline-offset:1U", "image-resolution:1dppx;height:2U",
 }
 
 func c04GenNode(t *rapid.T, spec c04Spec, depth int, budget *int) C04Node {
@@ -150,7 +162,18 @@ func c04GenNode(t *rapid.T, spec c04Spec, depth int, budget *int) C04Node {
 
 func c04Gen(t *rapid.T, tier Tier) interface{} {
 	c := &C04Case{}
-	switch rapid.IntRange(0, 10).Draw(t, "kind") {
+	switch rapid.IntRange(0, 12).Draw(t, "kind") {
+	case 11, 12:
+		c.Kind = "shared"
+		d := rapid.SampledFrom(c04SharedDecls).Draw(t, "shared")
+		u := rapid.SampledFrom([]string{"em", "ex", "ch", "rem", "em"}).Draw(t, "unit")
+		c.Doc = strings.ReplaceAll(d, "U", u)
+		c.Unit = u
+		n := rapid.IntRange(2, 4).Draw(t, "nshare")
+		for i := 0; i < n; i++ {
+			c.Sizes = append(c.Sizes, rapid.SampledFrom([]string{"10px", "20px", "40px", "2em", "50%", "7pt", "1rem"}).Draw(t, "size"))
+		}
+		c.Seed = rapid.IntRange(0, 23).Draw(t, "order")
 	case 0, 1, 2, 3:
 		c.Kind = "defaulting"
 		c.Prop = rapid.SampledFrom(c04Names).Draw(t, "prop")
@@ -469,6 +492,64 @@ func c04Units(c *C04Case) Verdict {
 	return Verdict{NonTrivial: nt, Labels: labels}
 }
 
+// c04Shared: one rule gives the same declaration to several elements of different font sizes; each
+// must compute it as if it were alone (the declared value is shared, the computed ones are not).
+func c04Shared(c *C04Case) Verdict {
+	labels := []string{"kind:shared", "unit:" + c.Unit}
+	var names []string
+	for _, d := range strings.Split(c.Doc, ";") {
+		names = append(names, strings.TrimSpace(d[:strings.Index(d, ":")]))
+	}
+	for _, n := range names {
+		if _, ok := pr.PropsFromNames[n]; !ok {
+			return Verdict{Excluded: "property-not-supported:" + n, Labels: labels}
+		}
+	}
+	var b strings.Builder
+	b.WriteString(`<!DOCTYPE html><html><head><style>.s{` + c.Doc + `}</style></head><body style="font-family:Ahem">`)
+	for i, fs := range c.Sizes {
+		fmt.Fprintf(&b, `<x-el id="e%d" class="s" style="font-size:%s"></x-el>`, i, fs)
+	}
+	b.WriteString(`</body></html>`)
+	doc := b.String()
+	_, sf, byID, err := c04Styles(doc)
+	if err != nil {
+		return Verdict{Excluded: "html-rejected", Labels: labels}
+	}
+	// read in a drawn order: the first reader must not fix the value for the others
+	order := make([]int, len(c.Sizes))
+	for i := range order {
+		order[i] = i
+	}
+	for i, k := len(order)-1, c.Seed; i > 0; i-- {
+		j := k % (i + 1)
+		k /= i + 1
+		order[i], order[j] = order[j], order[i]
+	}
+	got := map[int][]string{}
+	for _, i := range order {
+		for _, n := range names {
+			got[i] = append(got[i], fmt.Sprintf("%v", c04Value(sf, byID[fmt.Sprintf("e%d", i)], n)))
+		}
+	}
+	distinct := map[string]bool{}
+	for i, fs := range c.Sizes {
+		alone := `<!DOCTYPE html><html><head></head><body style="font-family:Ahem"><x-el id="e" style="font-size:` + fs + `;` + c.Doc + `"></x-el></body></html>`
+		_, sf2, byID2, err := c04Styles(alone)
+		if err != nil {
+			return Verdict{Excluded: "html-rejected", Labels: labels}
+		}
+		for k, n := range names {
+			want := fmt.Sprintf("%v", c04Value(sf2, byID2["e"], n))
+			distinct[want] = true
+			if want != got[i][k] {
+				return Viol("shared:"+n, "%s from a rule shared by %d elements computes to %s on #e%d (font-size %s), but to %s when the element is alone\n%s", n, len(c.Sizes), got[i][k], i, fs, want, doc)
+			}
+		}
+	}
+	return Verdict{NonTrivial: len(distinct) > len(names), Labels: labels}
+}
+
 func c04AllProps(c *C04Case) Verdict {
 	labels := []string{"kind:allprops"}
 	h, err := wr.ParseHTML(c.Doc, wr.Opts{})
@@ -557,6 +638,8 @@ func c04Check(ci interface{}) Verdict {
 		return c04Defaulting(c)
 	case "units":
 		return c04Units(c)
+	case "shared":
+		return c04Shared(c)
 	default:
 		return c04AllProps(c)
 	}
@@ -575,8 +658,9 @@ func init() {
 			"Oracle (CSS Cascade 4 section 7): explicit -> the value computed for the same declaration on a lone element; inherit -> the parent's computed value (root: initial); initial -> the computed value of the specification's initial value text; none -> parent's value if the specification marks the property inherited, else initial. " +
 			"units: 'target: N unit' for unit in px pt pc in cm mm q em rem ex ch on 10 length-valued properties, with root / parent / own font-size drawn from px, pt, in, em, rem, %, ex, ch forms, Ahem font (ex = 0.8em, ch = 1em), probe on the root element one time in six; expected pixels from the fixed ratios (1in = 96px = 72pt = 6pc = 2.54cm = 25.4mm = 101.6q) and the computed font sizes (rem on the root's own font-size refers to the initial 16px). " +
 			"allprops: on five documents with pseudo-elements, list markers, tables, flex/grid, font-weight bolder/lighter and font-size larger/smaller on the root, and a page context: every property of every element / pseudo-element / page has a non-nil value, reading them in a drawn random order and again in enum order gives identical values, and a second computation read in a different order agrees. " +
-			"Non-trivial: defaulting with an inheritance chain of length >= 2; units with a relative unit or a relative font-size; allprops with > 3 styles.",
-		ImportantLabels: []string{"kind:defaulting", "kind:units", "kind:allprops", "root-inherit", "on-root", "unit:em", "unit:rem", "unit:ex", "unit:ch", "unit:q"},
+			"shared: one style rule gives a declaration with a font-relative length inside a composite value (gradients, positions, sizes, transforms, clip, grid tracks, ... 44 declarations x em/ex/ch/rem) to 2-4 sibling elements of different font sizes, read in a drawn order; each element must compute the value it computes when it is alone in the document. " +
+			"Non-trivial: defaulting with an inheritance chain of length >= 2; units with a relative unit or a relative font-size; allprops with > 3 styles; shared with at least two distinct expected values.",
+		ImportantLabels: []string{"kind:defaulting", "kind:units", "kind:allprops", "kind:shared", "root-inherit", "on-root", "unit:em", "unit:rem", "unit:ex", "unit:ch", "unit:q"},
 		Assumptions:     []string{"tolerance on computed lengths: 1e-4 relative (values are float32)", "font-size: larger/smaller are exercised for non-nil values only (CSS leaves their exact scaling to the user agent)"},
 	})
 }
